@@ -83,6 +83,35 @@ let () = iter_lines (fun line ->
   | "loadx" :: bits :: prec :: pf :: bu :: _align :: maxpix :: rest ->
       do_load (int_of_string bits) (int_of_string prec) (int_of_string pf) (bu = "1") (int_of_string maxpix)
         (match rest with h :: _ -> h | [] -> "")
+  | "rd" :: maxpix :: targa :: rest ->
+      let bytes = unhex (match rest with h :: _ -> h | [] -> "") in
+      let mp = z_of_int (int_of_string maxpix) in
+      let rname = function
+        | R_EOF -> "EOF" | R_GIF_NOT -> "GIF_NOT" | R_GIF_EMPTY -> "GIF_EMPTY" | R_TOOBIG -> "TOOBIG"
+        | R_GIF_NOIMAGE -> "GIF_NOIMAGE" | R_GIF_CODESIZE -> "GIF_CODESIZE" | R_TGA_BADPARMS -> "TGA_BADPARMS"
+        | R_TGA_BADCMAP -> "TGA_BADCMAP" | R_OOB -> "MODEL_OOB" | R_UNINIT -> "MODEL_UNINIT" | R_FUEL -> "MODEL_FUEL" in
+      let pr w h comps warn rows =
+        let b = Buffer.create 4096 in
+        Buffer.add_string b (Printf.sprintf "rd ok %d %d %d %d |" (int_of_z w) (int_of_z h) (int_of_z comps) warn);
+        List.iter (fun row -> List.iter (fun v -> Buffer.add_char b ' '; Buffer.add_string b (string_of_int (int_of_z v))) row) rows;
+        print_endline (Buffer.contents b) in
+      (match bytes with
+       | [] when targa <> "1" -> print_endline "rd err EMPTY"
+       | c :: _ when targa <> "1" && int_of_z c <> 71 && int_of_z c <> 0 -> print_endline "rd err UNKNOWN"
+       | c :: _ when targa <> "1" && int_of_z c = 71 ->
+         (match gif_header mp bytes with
+          | ROk (hd, _) when int_of_z hd.g_w * int_of_z hd.g_h > 1048576 -> print_endline "skip huge"
+          | _ ->
+            (match load_gif mp bytes with
+             | RErr e -> print_endline ("rd err " ^ rname e)
+             | ROk ((((w, h), comps), warn), rows) -> pr w h comps (int_of_z warn) rows))
+       | _ ->
+         (match tga_header mp bytes with
+          | ROk (hd, _) when int_of_z hd.t_w * int_of_z hd.t_h > 1048576 -> print_endline "skip huge"
+          | _ ->
+            (match load_tga mp bytes with
+             | RErr e -> print_endline ("rd err " ^ rname e)
+             | ROk (((w, h), comps), rows) -> pr w h comps 0 rows)))
   | "cjx" :: _maxpix :: targa :: prec :: rest ->
       (* only the precision verdict of the reader selection is predicted *)
       (match unhex (match rest with h :: _ -> h | [] -> "") with
